@@ -170,6 +170,13 @@ impl GenerationPass for AvailableValuePass {
                 if node.calls_to().is_some() {
                     killed |= Register::return_addr_set();
                 }
+                if node.is_ecall() {
+                    // An environment call returns its results in registers: those of the
+                    // call number if it is known, otherwise any return register
+                    killed |= node
+                        .known_ecall_signature()
+                        .map_or_else(Register::return_set, |(_, rets)| rets);
+                }
                 out_reg_n -= killed.iter();
                 if let Some((reg, reg_value)) = node.gen_reg_value() {
                     out_reg_n.insert(reg, reg_value);
